@@ -7,5 +7,5 @@ for id in "$@"; do
   echo "=== $id-$suf"
   tools/seed_confirm.sh /tmp/wt-$n/OUT 2>&1 | grep -E "SUITE|DEMO|apply"
   mkdir -p seeded/$id-$suf; cp /tmp/wt-$n/OUT/{patch.diff,demo.diff,meta.md} seeded/$id-$suf/
-  timeout 1500 tools/seed_run.sh seeded/$id-$suf/patch.diff $id quick 2>&1 | grep -E "VIOLATION|\[C|check exit|TOOL" | head -4
+  timeout 1500 ${SEED_RUN:-tools/seed_run.sh} seeded/$id-$suf/patch.diff $id quick 2>&1 | grep -E "VIOLATION|\[C|check exit|TOOL" | head -4
 done
